@@ -21,3 +21,5 @@ pub fn shim_str_last_char(s: &String) -> (r: Option<char>)
 pub fn shim_string_append_slash(s: String) -> (r: String)
     ensures r@ == s@.push('/')
 { s + "/" }
+#[verifier::external_body]
+pub fn shim_str_to_owned(s: &str) -> (r: String) ensures r@ == s@ { s.to_owned() }
